@@ -79,6 +79,48 @@ theorem clean_escapeFrom (last e : Bool) : ∀ (s : Str) (p : Bool), s.getLast? 
         simp only [escNow, Bool.or_eq_true, beq_iff_eq, not_or] at hx
         simp [hx.1.1, hx.1.2, ih]
 
+/-- the same with the trailing backslash allowed for a last segment -/
+theorem clean_escapeFrom' (last e : Bool) (s : Str) (p : Bool)
+    (hl : last = true ∨ s.getLast? ≠ some '\\') : cleanB last (escapeFrom e p s) = true := by
+  rcases hl with h | h
+  · subst h
+    -- `cleanB true` of any escaped string: by the same recursion, the lone final backslash is fine
+    induction s generalizing p with
+    | nil => rw [escapeFrom_nil]; exact cleanB_nil' true
+    | cons c r ih =>
+      rw [escapeFrom_cons]
+      by_cases hx : escNow e p c = true
+      · simp only [hx, if_true, List.cons_append, List.nil_append]
+        rw [cleanB_cons]
+        simp only [if_true]
+        by_cases he : isEscapable c = true
+        · simp only [he, if_true]; exact ih _
+        · simp only [he, Bool.false_eq_true, if_false]
+          rw [cleanB_cons]
+          have hc1 : c ≠ '\\' := by
+            intro e1; subst e1; simp [escNow] at hx
+          have hc2 : (c == '/' || c == '[') = false := by
+            simp only [isEscapable, Bool.or_eq_true, beq_iff_eq, not_or] at he
+            simp [he.1.1, he.2]
+          simp [hc1, hc2, ih]
+      · simp only [hx, Bool.false_eq_true, if_false, List.cons_append, List.nil_append]
+        rw [cleanB_cons]
+        by_cases hb : c = '\\'
+        · subst hb
+          simp only [if_true, beq_self_eq_true]
+          cases r with
+          | nil => rw [escapeFrom_nil]
+          | cons d r' =>
+            obtain ⟨h, tl, heq, hne, _⟩ := escapeFrom_head e d r'
+            have := ih true
+            rw [heq] at this ⊢
+            simp only [hne, Bool.false_eq_true, if_false]
+            exact this
+        · simp only [hb, if_false]
+          simp only [escNow, Bool.or_eq_true, beq_iff_eq, not_or] at hx
+          simp [hx.1.1, hx.1.2, ih]
+  · exact clean_escapeFrom last e s p h
+
 theorem unescape_escapeFrom (e : Bool) : ∀ (s : Str) (p : Bool), unescape (escapeFrom e p s) = s
   | [], p => by rw [escapeFrom_nil]; exact unescape_nil'
   | c :: r, p => by
@@ -183,5 +225,30 @@ theorem escapeSeg_facts (last e : Bool) (s : Str) (hg : GoodName s = true) :
       | cons c r =>
         exact ⟨escapeFrom_ne_nil e false c r, clean_escapeFrom last e _ false hl,
           escapeFrom_plain e _ hne' h1 h2, unescape_escapeFrom e _ false⟩
+
+/-- the same for a non-empty name that may end in a backslash when it is the last segment -/
+theorem escapeSeg_facts' (last e : Bool) (s : Str) (hne' : s ≠ [])
+    (hl : last = true ∨ s.getLast? ≠ some '\\') :
+    escapeSeg e s ≠ [] ∧ cleanB last (escapeSeg e s) = true ∧ PlainSeg (escapeSeg e s) ∧
+      unescape (escapeSeg e s) = s := by
+  by_cases hg : GoodName s = true
+  · exact escapeSeg_facts last e s hg
+  · -- s ends in a backslash, so it is neither "." nor ".."
+    have hend : s.getLast? = some '\\' := by
+      simp only [GoodName, Bool.and_eq_true, Bool.not_eq_true', bne_iff_ne, ne_eq, not_and, Decidable.not_not] at hg
+      apply hg
+      cases s with
+      | nil => exact absurd rfl hne'
+      | cons _ _ => rfl
+    have h1 : s ≠ ['.'] := by intro h; subst h; simp at hend
+    have h2 : s ≠ ['.', '.'] := by intro h; subst h; simp at hend
+    have e1 : (s == ['.']) = false := by simpa using h1
+    have e2 : (s == ['.', '.']) = false := by simpa using h2
+    simp only [escapeSeg, e1, e2, Bool.false_eq_true, if_false]
+    cases s with
+    | nil => exact absurd rfl hne'
+    | cons c r =>
+      exact ⟨escapeFrom_ne_nil e false c r, clean_escapeFrom' last e _ false hl,
+        escapeFrom_plain e _ hne' h1 h2, unescape_escapeFrom e _ false⟩
 
 end Flatland.C14.Proofs
